@@ -359,6 +359,17 @@ impl Worker {
             if jr.obs.extra.matches("\", \"").count() >= 1 {
                 bump(&mut rm.stats, "probe.two_or_more_literals", 1);
             }
+            // with the process's stdout/stderr broken the printed diagnostics are lost by design: everything else
+            // must still be equal
+            let patched;
+            let jr = if w.stdio != 0 {
+                let mut c = jr.clone();
+                c.obs.diag = refobs.diag.clone();
+                patched = c;
+                &patched
+            } else {
+                jr
+            };
             if let Some(v) = oracle::check_c05(&refobs, jr) {
                 let label = js.label.clone();
                 self.report(tag, "C05", v, vec![refworld, w.clone()], &label, js.key(), rm);
@@ -540,12 +551,17 @@ impl Worker {
                     let mut refs: BTreeMap<u64, Obs> = BTreeMap::new();
                     for (wi, ji, jr) in &all {
                         let js = &worlds[*wi].jobs[*ji];
-                        if js.reader.benign() && js.writer.benign() && !refs.contains_key(&jr.key) {
+                        if js.reader.benign() && js.writer.benign() && worlds[*wi].stdio == 0 && !refs.contains_key(&jr.key) {
                             refs.insert(jr.key, jr.obs.clone());
                         }
                     }
                     for (wi, ji, jr) in &all {
                         if let Some(reference) = refs.get(&jr.key) {
+                            let mut jr = jr.clone();
+                            if worlds[*wi].stdio != 0 {
+                                jr.obs.diag = reference.diag.clone();
+                            }
+                            let jr = &jr;
                             if let Some(v) = oracle::check_c05(reference, jr) {
                                 let label = worlds[*wi].jobs[*ji].label.clone();
                                 self.sent.clear();
